@@ -72,6 +72,7 @@ pub fn f64_parse(t: &str) -> Option<f64> {
         "nan" => return Some(f64::NAN),
         "inf" => return Some(f64::INFINITY),
         "-inf" => return Some(f64::NEG_INFINITY),
+        "-0p0" => return Some(-0.0),
         _ => {},
     }
     let (m, e) = t.split_once('p')?;
@@ -765,8 +766,9 @@ pub const ORD_TYPES: &[&str] = &["f32", "f64", "i32", "i64", "u8", "u64", "usize
 fn ord_grid(ty: &str, big: bool) -> Vec<String> {
     let (o, b) = split_ty(ty);
     let base: Vec<&str> = match b {
-        "f32" => vec!["-inf", "-1p0", "0p0", "1p-149", "1p0", "inf"],
-        "f64" => vec!["-inf", "-1p0", "0p0", "1p-1074", "1p0", "inf"],
+        // `-0p0` is the negative zero: equal to `0p0` under the comparators (a bit-pattern order would split them)
+        "f32" => vec!["-inf", "-1p0", "-0p0", "0p0", "1p-149", "1p0", "inf"],
+        "f64" => vec!["-inf", "-1p0", "-0p0", "0p0", "1p-1074", "1p0", "inf"],
         "i32" => vec!["-2147483648", "-1", "0", "1", "2147483647"],
         "i64" | "isize" => vec!["-9223372036854775808", "-1", "0", "1", "9223372036854775807"],
         "u8" => vec!["0", "1", "2", "128", "255"],
